@@ -592,6 +592,10 @@ def handle (ts : List String) : String :=
     match runP (do let d ← pDevice; let n ← pOpt; let ms ← pList pMsg; pure (d, n, ms)) rest with
     | some (d, n, ms) => if Spec.Dev.namesDistinct d then encBool (Spec.Dev.c07Holds d n ms) else "na"
     | none => "bad-op"
+  | "spec" :: "flags" :: rest =>
+    match runP (do let d ← pDevice; let ops ← pList pDevOp; let d' ← pDevice; pure (d, ops, d')) rest with
+    | some (d, ops, d') => encBool (Spec.Dev.flagsHold d ops d')
+    | none => "bad-op"
   | "spec" :: "c12" :: rest =>
     match runP (do let d ← pDevice; let m ← pMsg; let r ← pBool; let d' ← pDevice; pure (d, m, r, d')) rest with
     | some (d, m, r, d') => encBool (Spec.Dev.c12Holds d m r d')
